@@ -322,8 +322,9 @@ namespace Pistache
 
         Entry* pop() override
         {
-            auto ret = Queue<T>::pop();
-
+            // Drain the notification before looking at the queue: a push that
+            // lands after the drain leaves its notification pending, so the
+            // event loop is woken up again even if this pop misses the item
             if (isBound())
             {
                 uint64_t val;
@@ -343,7 +344,7 @@ namespace Pistache
                 }
             }
 
-            return ret;
+            return Queue<T>::pop();
         }
 
         Polling::Tag tag() const
